@@ -258,7 +258,7 @@ func checkC11(w *World, r *Report) {
 				locked = false
 			}
 			if e.Kind == "call" && e.Callee != nil && (e.Callee == ro.CancelInt || len(ro.callsReaching(e.Callee, func(f *ssa.Function) bool { return f == ro.CancelInt })) > 0 && e.Callee.Signature.Params().Len() == 1) {
-				if (e.Val == "recv,rangekey(recv.jobsByID)" || e.Val == "recv,rangeval(recv.jobsByID)") && locked && forced {
+				if (e.Val == "recv,rangekey(recv.jobsByID)" || e.Val == "recv,rangeval(recv.jobsByID)" || e.Val == "recv,recv.jobsByID[rangekey(recv.jobsByID)]") && locked && forced {
 					// the call sits in the range loop over the id index, and that loop is left only when the index is exhausted
 					if hd, body := naturalLoop(e.In.Block()); hd != nil {
 						if exits := earlyExits(hd, body); len(exits) == 0 {
